@@ -73,6 +73,7 @@ Definition nm_try_extend : list N := [116; 114; 121; 95; 101; 120; 116; 101; 110
 Definition nm_finalize : list N := [102; 105; 110; 97; 108; 105; 122; 101].
 Definition nm_index_mut : list N := [105; 110; 100; 101; 120; 95; 109; 117; 116].
 Definition nm_Flavor : list N := [70; 108; 97; 118; 111; 114].
+Definition nm_Slice : list N := [83; 108; 105; 99; 101].
 Definition nm_HVec : list N := [72; 86; 101; 99].
 Definition nm_AllocVec : list N := [65; 108; 108; 111; 99; 86; 101; 99].
 Definition nm_ExtendFlavor : list N := [69; 120; 116; 101; 110; 100; 70; 108; 97; 118; 111; 114].
